@@ -121,10 +121,6 @@ structure AState where
 
 /-! ### message execution -/
 
-def isOk : Out → Bool
-  | .ok _ => true
-  | _ => false
-
 /-- whether the operation is one a transaction can carry for this kind -/
 def opMatches : Kind → Op → Bool
   | .prevote, .prevote .. => true
